@@ -147,7 +147,7 @@ def kin_cases(ctx, n_models):
 # ----------------------------------------------------------------------------- (c) pipelines
 
 
-def grad_case(rng, pipeline_name, n_steps, singular, opts=None, active_limits=False, aligned=False):
+def grad_case(rng, pipeline_name, n_steps, singular, opts=None, active_limits=False, aligned=False, qd_range=0.5):
   """returns None if ok else failure dict"""
   _setup()
   import importlib
@@ -160,7 +160,7 @@ def grad_case(rng, pipeline_name, n_steps, singular, opts=None, active_limits=Fa
   o.update(opts or {})
   xml, mt = modelgen.gen_model(rng, **o)
   sysm = mjcf.loads(xml)
-  q, qd = modelgen.rand_state(rng, sysm, q_range=0.6, qd_range=0.5)
+  q, qd = modelgen.rand_state(rng, sysm, q_range=0.6, qd_range=qd_range)
   ctrl = rng.uniform(-1, 1, size=sysm.act_size())
   if active_limits:
     # joint limits ACTIVE and well away from the switching point: limited joints are put 0.05-0.3 beyond their range
@@ -270,6 +270,25 @@ def grad_cases(ctx, n_per_pipeline, seed_offset=0):
       n += 1
       if r is not None:
         fails.append(r)
+    # joints without rotational dofs (three stacked slides: every rotational axis is the zero vector; arctan2(0, 0) inside
+    # signed_angle had a nan gradient on the pinned tree: fixed in /repo by 549288a)
+    for k in range(n_per_pipeline):
+      r = grad_case(rng, name, n_steps=1, singular=False,
+                    opts=dict(n_links=(1, 1), stack=(3, 3), kinds='slide', roots='world'))
+      n += 1
+      if r is not None:
+        fails.append(r)
+    if name == 'generalized':
+      # the APPROXIMATE mass-matrix inverse (mjcf default: 10 warm-started Newton-Schulz iterations, first used in the second
+      # step) on a fast arm with a large time step, where the iteration does not converge: the gradient must still be the
+      # derivative of what is computed
+      for k in range(n_per_pipeline):
+        r = grad_case(rng, name, n_steps=3, singular=False, qd_range=12.0,
+                      opts=dict(n_links=(3, 3), stack=(1, 1), kinds='hinge', topology='chain', roots='world', timestep=0.02,
+                                custom={'matrix_inv_iterations': 10}, damping=0.0, armature=0.0))
+        n += 1
+        if r is not None:
+          fails.append(r)
     # joint limits active, away from the switching point: the derivative of the limit/constraint forces is compared too
     # (the generalized pipeline solves for the constraint force iteratively: three cases there)
     for k in range(n_per_pipeline * (3 if name == 'generalized' else 1)):
